@@ -630,7 +630,8 @@ BrEventBG(s) ==
   ELSE IF ~s.wl.genOk THEN "unstable"
   ELSE IF s.wl.stRepl = s.wl.stUpdated THEN "normal"
   ELSE IF s.br.obsR # -1 /\ s.wl.R # s.br.obsR THEN "scaling"
-  ELSE IF s.br.updRev # 0 /\ s.wl.specRev = s.wl.stableLabel /\ s.br.stableRev = s.wl.specRev /\ s.br.stableRev # s.br.updRev THEN "rollback"
+  \* IsRollback compares the update revision (the rollouts' own hash of the template) with the stable revision (the
+  \* ReplicaSet's pod-template-hash label): two different hash functions, never equal, so a rollback shows as "revision"
   ELSE IF s.br.updRev # 0 /\ s.wl.specRev # s.br.updRev THEN "revision"
   ELSE "normal"
 \* NewRSReplicasLimit: the batch's surge, at most the workload size, and one less unless it is 100%
